@@ -26,7 +26,7 @@ void genHttp(Prng& r, Plan& p, int tier)
 		int conn = 0;
 		if (kind == 1 && r.below(3) == 0)
 			conn = conns > 0 && r.below(2) ? 1 + (int)r.below((uint32_t)conns) : ++conns;
-		p.ops.push_back(op("req", {kind, (int64_t)r.below(r.below(2) ? 3 : 400), (int64_t)(r.next() >> 20), (int64_t)lens[0], (int64_t)lens[1], (int64_t)r.below(5), conn}));
+		p.ops.push_back(op("req", {kind, (int64_t)r.below(r.below(2) ? 3 : 400), (int64_t)(r.next() >> 20), (int64_t)lens[0], (int64_t)lens[1], (int64_t)r.below(6), conn}));
 		if (r.below(2))
 			p.ops.push_back(op("range", {(int64_t)(r.next() >> 24)}));
 	}
@@ -86,7 +86,7 @@ void expectedResponse(const Spec& s, const Run& R, int& code, std::string& body,
 	exact = true;
 	code = s.status;
 	body = s.rbody;
-	if (s.respKind >= 3)
+	if (s.respKind == 3 || s.respKind == 4)
 	{
 		auto it = R.files.find(s.file);
 		const std::string& f = it->second;
@@ -117,7 +117,7 @@ void checkClient(const Spec& s, const Run& R)
 	char key[64];
 	if (s.cCode != code)
 	{
-		snprintf(key, sizeof key, "code%s%s", s.respKind >= 3 ? ";file" : "", shape);
+		snprintf(key, sizeof key, "code%s%s", (s.respKind == 3 || s.respKind == 4) ? ";file" : s.respKind == 5 ? ";stream" : "", shape);
 		sim::fail("response_mismatch", key, "request %d (%s client%s): handler produced status %d, client saw %d (%s)", s.id, who, s.rangeB >= 0 ? (", Range bytes=" + std::to_string(s.rangeB) + "-" + std::to_string(s.rangeE)).c_str() : "", code,
 		          s.cCode, s.cNote.c_str());
 		return; // headers and body of a response with the wrong status are secondary
@@ -289,12 +289,12 @@ void runHttp(const Plan& p)
 			Spec& s = R.specs[i];
 			size_t bl = (size_t)std::max<int64_t>(0, std::min<int64_t>(9000000, o.arg(3)));
 			size_t rl = (size_t)std::max<int64_t>(0, std::min<int64_t>(9000000, o.arg(4)));
-			buildSpec(s, (int)i, (int)(std::abs(o.arg(0)) & 1), (uint64_t)o.arg(2), bl, rl, (int)(std::abs(o.arg(5)) % 5), nfiles);
+			buildSpec(s, (int)i, (int)(std::abs(o.arg(0)) & 1), (uint64_t)o.arg(2), bl, rl, (int)(std::abs(o.arg(5)) % 6), nfiles);
 			s.atMs = (int)std::max<int64_t>(0, std::min<int64_t>(2000, o.arg(1)));
 			s.conn = s.kind == 1 ? (int)(std::abs(o.arg(6)) % 8) : 0;
 			i++;
 		}
-		else if (o.k == "range" && i > 0 && R.specs[i - 1].respKind >= 3)
+		else if (o.k == "range" && i > 0 && (R.specs[i - 1].respKind == 3 || R.specs[i - 1].respKind == 4))
 		{
 			Spec& s = R.specs[i - 1];
 			size_t fl = R.files[s.file].size();
